@@ -145,7 +145,7 @@ pub fn draw_cfg(rng: &mut Rng, k: &Knobs) -> ProgCfg {
         } else {
             None
         };
-        let ctime = if rng.bool() { Some(*rng.pick(&[0u64, 1, 951782400, 1700000000, 4102444800, 253402300799])) } else { None };
+        let ctime = if rng.bool() { Some(*rng.pick(&[0u64, 1, 951782400, 1700000000, 4102444800, 253402300799, 253402300800, 32_503_680_000, 1_700_000_000_000, 1 << 40])) } else { None };
         let lang = if rng.bool() { Some(rng.pick(&["eng", "spa", "und", "jpn", "zzz", "aaa"]).to_string()) } else { None };
         Some(MetaCfg { title, ctime, lang, style: rng.below(2) as u8 })
     } else {
@@ -156,7 +156,23 @@ pub fn draw_cfg(rng: &mut Rng, k: &Knobs) -> ProgCfg {
         1 => Some(true),
         _ => Some(false),
     };
-    ProgCfg { video, audio, fast_start, meta, sink: SinkKind::Sim }
+    // builder calls made twice: what was configured first must leave no trace
+    let mut video_prior = None;
+    let mut audio_prior = None;
+    if video.is_some() && rng.chance(1, 12) {
+        video_prior = Some(VideoCfg { codec: *rng.pick(&VCODECS), width: 1280, height: 720, fps: F(25.0), alias: rng.bool() });
+    }
+    if rng.chance(1, 10) {
+        let c = if rng.chance(1, 4) { ACodec::NoneCodec } else { *rng.pick(&ACODECS_REAL) };
+        audio_prior = Some(AudioCfg { codec: c, rate: *rng.pick(&[48000u32, 44100, 8000]), channels: *rng.pick(&[1u16, 2]), alias: rng.bool() });
+    }
+    let audio = if audio_prior.is_some() && audio.is_none() {
+        // switched off again explicitly (a prior call is always followed by a final one, which wins)
+        Some(AudioCfg { codec: ACodec::NoneCodec, rate: 0, channels: 0, alias: rng.bool() })
+    } else {
+        audio
+    };
+    ProgCfg { video, audio, video_prior, audio_prior, fast_start, meta, sink: SinkKind::Sim }
 }
 
 /// One planned media event before it is turned into an op.
@@ -830,6 +846,7 @@ pub fn gen_frag(rng: &mut Rng, k: &FragKnobs) -> FragCase {
         height: *rng.pick(&[1080u32, 480, 1, 65535]),
         timescale: if via_builder { 90000 } else { *rng.pick(&[90000u32, 1000, 48000, 1, 30000]) },
         fragment_duration_ms: if via_builder { 2000 } else { *rng.pick(&[2000u32, 1, 0, 100, u32::MAX]) },
+        fps: F(if k.boundary { *rng.pick(&[30.0f64, 0.0, 0.25, 1.0 / 60.0, 0.49, 0.5, f64::MIN_POSITIVE, -1.0, f64::NAN, f64::INFINITY, 1e308, 29.97]) } else { *rng.pick(&[30.0f64, 29.97, 24.0, 60.0, 1.0, 0.25]) }),
         sps: None,
         pps: None,
         vps: None,
@@ -954,9 +971,34 @@ pub fn gen_frag(rng: &mut Rng, k: &FragKnobs) -> FragCase {
                 1 if k.big && rng.chance(1, 8) => rng.range(60000, 70000) as usize,
                 _ => rng.range(1, 60) as usize,
             };
-            let mut data = stamp.to_be_bytes().to_vec();
-            data.truncate(size.min(8));
-            data.extend(rng.bytes(size.saturating_sub(8)));
+            let mut data = if rng.chance(1, 2) {
+                // the documented input format: 4-byte length-prefixed NAL units; lengths include the ones whose
+                // prefix looks like a start code (1 -> 00 00 00 01, 256..=511 -> 00 00 01 xx)
+                let mut d = Vec::new();
+                let units = rng.range(1, 3);
+                for u in 0..units {
+                    let l = *rng.pick(&[1usize, 2, 5, 20, 255, 256, 300, 511, 512]);
+                    d.extend_from_slice(&(l as u32).to_be_bytes());
+                    let mut body = rng.bytes(l);
+                    if u == 0 {
+                        let st = stamp.to_be_bytes();
+                        for (i, b) in body.iter_mut().enumerate().take(8) {
+                            *b = st[i];
+                        }
+                    }
+                    d.extend(body);
+                }
+                if size == 0 {
+                    d.clear();
+                }
+                d
+            } else {
+                let mut d = stamp.to_be_bytes().to_vec();
+                d.truncate(size.min(8));
+                d.extend(rng.bytes(size.saturating_sub(8)));
+                d
+            };
+            let _ = &mut data;
             ops.push(FragOp::Write { pts, dts: this_dts, data: Hex(data), sync: first || rng.chance(1, 6) });
             first = false;
             since_flush += 1;
